@@ -32,6 +32,16 @@ type vfRule struct {
 	ClPerm    []string
 	ClRestr   []string
 	Denyallow []string
+	CtPerm    []string // $ctag= (kept sorted)
+	CtRestr   []string // $ctag=~
+	// $dnsrewrite: "" none, "rcode" (DrwRcode: 0 = the bare modifier /
+	// NOERROR keyword), "cname" (DrwName), "addr" (DrwAddr; DrwLong selects
+	// the NOERROR;A;… form).
+	Drw      string
+	DrwRcode int
+	DrwName  string
+	DrwAddr  netip.Addr
+	DrwLong  bool
 }
 
 // Text renders the rule line.
@@ -71,6 +81,40 @@ func (r *vfRule) Text() string {
 	}
 	if len(r.Denyallow) > 0 {
 		opts = append(opts, "denyallow="+strings.Join(r.Denyallow, "|"))
+	}
+	if len(r.CtPerm)+len(r.CtRestr) > 0 {
+		var cs []string
+		cs = append(cs, r.CtPerm...)
+		for _, c := range r.CtRestr {
+			cs = append(cs, "~"+c)
+		}
+		opts = append(opts, "ctag="+strings.Join(cs, "|"))
+	}
+	switch r.Drw {
+	case "rcode":
+		switch {
+		case r.DrwRcode == 0 && r.DrwLong:
+			opts = append(opts, "dnsrewrite=NOERROR")
+		case r.DrwRcode == 0:
+			opts = append(opts, "dnsrewrite")
+		default:
+			opts = append(opts, "dnsrewrite="+dns.RcodeToString[r.DrwRcode])
+		}
+	case "cname":
+		if r.DrwLong {
+			opts = append(opts, "dnsrewrite=NOERROR;CNAME;"+r.DrwName)
+		} else {
+			opts = append(opts, "dnsrewrite="+r.DrwName)
+		}
+	case "addr":
+		switch {
+		case !r.DrwLong:
+			opts = append(opts, "dnsrewrite="+r.DrwAddr.String())
+		case r.DrwAddr.Is4():
+			opts = append(opts, "dnsrewrite=NOERROR;A;"+r.DrwAddr.String())
+		default:
+			opts = append(opts, "dnsrewrite=NOERROR;AAAA;"+r.DrwAddr.String())
+		}
 	}
 	if r.Badfilter {
 		opts = append(opts, "badfilter")
@@ -168,7 +212,20 @@ func (r *vfRule) Coq() string {
 	}
 	return vfApp("RNet", vfApp("mkNRule", vfN(uint64(r.ID)), vfBool(r.White), vfBytes(r.Pattern),
 		vfBool(r.Important), vfBool(r.Badfilter), vfTypesCoq(r.DTPerm), vfTypesCoq(r.DTRestr),
-		vfClientsCoq(r.ClPerm), vfClientsCoq(r.ClRestr), vfBytesList(r.Denyallow)))
+		vfClientsCoq(r.ClPerm), vfClientsCoq(r.ClRestr), vfBytesList(r.Denyallow),
+		vfBytesList(r.CtPerm), vfBytesList(r.CtRestr), r.drwCoq()))
+}
+
+func (r *vfRule) drwCoq() string {
+	switch r.Drw {
+	case "rcode":
+		return vfOpt("dnsrw", true, vfApp("DRWRcode", vfN(uint64(r.DrwRcode))))
+	case "cname":
+		return vfOpt("dnsrw", true, vfApp("DRWCname", vfBytes(r.DrwName)))
+	case "addr":
+		return vfOpt("dnsrw", true, vfApp("DRWAddr", vfAddrCoq(r.DrwAddr)))
+	}
+	return vfOpt("dnsrw", false, "")
 }
 
 func vfRulesCoq(rs []*vfRule) string {
